@@ -357,6 +357,7 @@ func gen(t *rapid.T) Case {
 		if bare {
 			c.Good, c.Hostile, withSub = nil, false, false
 		}
+		dropInclude := withSub && rapid.Bool().Draw(t, "latest-drops-include")
 		famFrom = len(c.Good)
 		for i := 0; i < n; i++ {
 			name, rev, inc, viaSub := "fam@"+dates[i]+".yang", " revision "+dates[i]+";\n", "", ""
@@ -366,18 +367,23 @@ func gen(t *rapid.T) Case {
 			if withSub {
 				inc = " include famsub;\n"
 				viaSub = fmt.Sprintf(" identity viasub%d { base sid; }\n leaf vs { type st; }\n typedef stu { type union { type st; type int8; } }\n leaf vsu { type stu; }\n", i)
+				if dropInclude && i == n-1 {
+					// the latest revision no longer includes the submodule and defines its identity itself
+					inc, viaSub = "", " identity subsame { base fb:root; }\n identity subother { base fb:root; }\n"
+				}
 			}
 			if bare {
-				c.Good = append(c.Good, ymodel.Source{Name: name, Text: fmt.Sprintf("module fam {\n namespace \"urn:fam\";\n prefix f;\n%s grouping g { leaf from-r%d { type %s; } }\n identity id;\n identity sub%d { base id; }\n leaf ll { type identityref { base id; } }\n container c%d { leaf own { type %s; } }\n container c { }\n}\n", rev, i, kinds[i], i, i, kinds[i])})
+				c.Good = append(c.Good, ymodel.Source{Name: name, Text: fmt.Sprintf("module fam {\n namespace \"urn:fam\";\n prefix f;\n import fambase { prefix fb; }\n%s grouping g { leaf from-r%d { type %s; } }\n identity id;\n identity sub%d { base id; }\n leaf ll { type identityref { base id; } }\n container c%d { leaf own { type %s; } }\n container c { }\n}\n", rev, i, kinds[i], i, i, kinds[i])})
 				continue
 			}
-			c.Good = append(c.Good, ymodel.Source{Name: name, Text: fmt.Sprintf("module fam {\n namespace \"urn:fam\";\n prefix f;\n%s%s typedef t { type %s; units \"r%d\"; }\n grouping g { leaf from-r%d { type t; } }\n identity id;\n identity sub%d { base id; }\n typedef lt { type identityref { base id; } }\n leaf ll { type lt; }\n%s container c%d { leaf own { type t; } }\n container c { }\n}\n", inc, rev, kinds[i], i, i, i, viaSub, i)})
+			c.Good = append(c.Good, ymodel.Source{Name: name, Text: fmt.Sprintf("module fam {\n namespace \"urn:fam\";\n prefix f;\n import fambase { prefix fb; }\n%s%s typedef t { type %s; units \"r%d\"; }\n grouping g { leaf from-r%d { type t; } }\n identity id;\n identity sub%d { base id; }\n typedef lt { type identityref { base id; } }\n leaf ll { type lt; }\n%s container c%d { leaf own { type t; } }\n container c { }\n}\n", inc, rev, kinds[i], i, i, i, viaSub, i)})
 		}
+		c.Good = append(c.Good, ymodel.Source{Name: "fambase.yang", Text: "module fambase {\n namespace \"urn:fambase\";\n prefix fb;\n identity root;\n leaf rr { type identityref { base root; } }\n}\n"})
 		if withSub {
-			c.Good = append(c.Good, ymodel.Source{Name: "famsub@2019-05-05.yang", Text: "submodule famsub {\n belongs-to fam { prefix f; }\n revision 2019-05-05;\n identity sid;\n identity sd19 { base sid; }\n typedef st { type identityref { base sid; } }\n leaf insub { type st; }\n}\n"})
+			c.Good = append(c.Good, ymodel.Source{Name: "famsub@2019-05-05.yang", Text: "submodule famsub {\n belongs-to fam { prefix f; }\n import fambase { prefix fb; }\n revision 2019-05-05;\n identity subsame { base fb:root; }\n identity subother { base fb:root; }\n identity sid;\n identity sd19 { base sid; }\n typedef st { type identityref { base sid; } }\n leaf insub { type st; }\n}\n"})
 			if rapid.Bool().Draw(t, "later-submodule-revision") {
 				// a later revision of the submodule may arrive after a processing run and supersede the first
-				c.Good = append(c.Good, ymodel.Source{Name: "famsub@2021-12-31.yang", Text: "submodule famsub {\n belongs-to fam { prefix f; }\n revision 2021-12-31;\n identity sid;\n identity sd21 { base sid; }\n typedef st { type identityref { base sid; } units \"later\"; }\n leaf insub { type st; }\n leaf insub21 { type st; }\n}\n"})
+				c.Good = append(c.Good, ymodel.Source{Name: "famsub@2021-12-31.yang", Text: "submodule famsub {\n belongs-to fam { prefix f; }\n import fambase { prefix fb; }\n revision 2021-12-31;\n identity subsame { base fb:root; }\n identity subother { base fb:root; }\n identity sid;\n identity sd21 { base sid; }\n typedef st { type identityref { base sid; } units \"later\"; }\n leaf insub { type st; }\n leaf insub21 { type st; }\n}\n"})
 			}
 		}
 		if bare {
